@@ -1435,7 +1435,7 @@ func (g *gen) lookback(nKeysUsed int, big bool) LBS {
 		if r.Chance(12) {
 			v.Status = 0
 		}
-		if r.Chance(7) { // a status byte that is neither Offline (0) nor Online (1): not online, hence not entitled
+		if r.Chance(10) { // a status byte that is neither Offline (0) nor Online (1): not online, hence not entitled
 			v.Status = uint8(r.Pick([]uint64{2, 3, 255}))
 		}
 		if r.Chance(3) {
@@ -1975,6 +1975,23 @@ func (g *gen) one(res *vf.Result) Case {
 		res.Count("attack:coalition_grinds_the_point_encoding")
 		attacked = true
 		dropped = nil
+	}
+	if !g.plain && dropped != nil && r.Chance(25) {
+		// the gap is filled by chamber validators whose status byte is neither Offline (0) nor Online (1):
+		// they ran the sortition and signed, but they are not online members
+		n0 := len(c.H.Val.Votes)
+		for _, v := range honestVotes(c.LB, total, c.SeedH.Seed, stepPrecommit, index, c.CP.VT, false) {
+			val := c.LB.Vals[v.Idx]
+			if (val.Role == 1 || val.Role == 2) && val.Status > 1 {
+				c.H.Val.Votes = append(c.H.Val.Votes, v)
+				c.H.Val.Agg.Parts = append(c.H.Val.Agg.Parts, PartS{Key: val.Bls, Round: cs.Round, Index: index})
+			}
+		}
+		if len(c.H.Val.Votes) > n0 {
+			res.Count("attack:gap_filled_by_chamber_validators_of_odd_status")
+			attacked = true
+			dropped = nil
+		}
 	}
 	if !g.plain && dropped != nil && r.Chance(75) {
 		g.readd(&c, c.LB, &c.H.Val, *dropped, qv, c.SeedH.Seed, res)
